@@ -621,8 +621,8 @@ class Network(Cached):
         #  Get directedness
         directed = graph.is_directed()
 
-        #  Extract edge list
-        edges = np.array(graph.get_edgelist())
+        #  Extract edge list (shape (0, 2) for a graph without edges)
+        edges = np.array(graph.get_edgelist(), dtype=int).reshape(-1, 2)
 
         #  Symmetrize if undirected network
         if not directed:
